@@ -63,10 +63,10 @@ def cls : Outcome α → String
 
 @[noinline] def runRead (mode : String) (hdr : Bytes) (len : Nat) (ks : List Nat) : String :=
   "".intercalate (ks.map fun k =>
-    if mode == "trunc" then cls (readR 280 (virtReader (hdr.take k) (min k len)))
+    if mode == "trunc" then cls (readR Gen.headerMaxTables (virtReader (hdr.take k) (min k len)))
     else
       let v := virtReader hdr len
-      cls (readR 280 (fun off n => if off + n > k then .fault else v off n)))
+      cls (readR Gen.headerMaxTables (fun off n => if off + n > k then .fault else v off n)))
 
 /-- expected verdicts of the property for fault point `k`: every `k` below the end of the last
 table must be rejected (`E`) by the seekable and by the streaming reader; nothing is demanded
